@@ -200,6 +200,9 @@ func run(c *core.Ctx) error {
 	}
 
 	// ---- linearizability of free-running hammer runs
+	if err := stressStage(c); err != nil {
+		return err
+	}
 	okTraces, err := hammerStage(c, specDir)
 	if err != nil {
 		return err
